@@ -40,6 +40,25 @@ def nul_last_class_program(rng, k):
     return {'csize': 256, 'caseins': False, 'scs': [], 'rules': rules}
 
 
+def nul7_program(rng):
+    """7-bit scanners (-7): NUL is a 7-bit character; it is mentioned only inside bracket classes (plain, negated, ranges
+    starting at \\0), so that its place among the equivalence classes is decided by the class machinery alone."""
+    rules = []
+    pool = [('cls', ('set', True, [('ch', 0), ('ch', 10)])),                       # [^\0\n]
+            ('cls', ('set', False, [('ch', 0), ('ch', 10)])),                      # [\0\n]
+            ('cls', ('set', False, [('rg', 0, rng.pick([8, 31, 64]))])),           # [\0-\x1f]
+            ('cls', ('set', True, [('ch', 0)])),                                   # [^\0]
+            ('cls', ('set', False, [('ch', 0), ('rg', 97, 99)])),
+            ('cls', ('set', True, [('rg', 0, 9), ('rg', 11, 96)]))]
+    for h in rng.shuffle(pool)[:rng.rng(2, 4)]:
+        if rng.chance(50):
+            h = ('plus', h)
+        rules.append({'head': h, 'bol': False, 'scs': None, 'trail': None})
+    if rng.chance(50):
+        rules.append({'head': ('str', [97, 98]), 'bol': False, 'scs': None, 'trail': None})
+    return {'csize': 128, 'caseins': False, 'scs': [], 'rules': rules}
+
+
 def nul_template_program(rng):
     """Loops over wide classes that contain NUL next to rules with negated classes: with meta-equivalence classes but
     no equivalence classes (-Cm) NUL is class 256 and has to find its way into the templates of the compressed table."""
@@ -111,9 +130,17 @@ def build_cases(rng, tier):
             opts = list(r.pick([["-Cfe"], ["-Cfe"], ["-Cfae"], ["-CFe"], ["-Ce"], ["-Cem"]]))
             if be == 'cxx' and any("F" in o for o in opts):
                 opts = ["-Cfe"]
-        c = engine.make_case("n%d" % i, r, prog=prog, flex_opts=opts + ["-8"], backend=be,
+        seven = i % 8 == 1
+        if seven:
+            prog = nul7_program(r)
+            opts = list(r.pick([[], [], ["-Cfe"], ["-Cem"], ["-I"], ["-Cf"], ["-CF"], ["-Ce"]]))
+            if be == 'cxx' and any("F" in o for o in opts):
+                opts = ["-Cfe"]
+        c = engine.make_case("n%d" % i, r, prog=prog, flex_opts=opts + (["-7"] if seven else ["-8"]), backend=be,
                              extra_options=(["array"] if r.chance(20) else []))
         c['inputs'] = nul_inputs(prog, r.fork("in"), 4)
+        if seven:
+            c['inputs'] = [[b for b in w if b < 128] for w in c['inputs']] + [[97, 98, 0, 99, 100, 10, 0, 0, 120, 10]]
         if lastclass:
             c['inputs'].append([97, 98, 192, 99, 100, 10, 233, 10, 192, 193, 120, 0, 200, 0, 0, 255, 10])
         if be != 'c99':
